@@ -73,8 +73,102 @@ def _raw_func(tree: ast.Module, cls: str, name: str) -> ast.FunctionDef:
 
 def _func(tree: ast.Module, cls: str, name: str) -> ast.FunctionDef:
     """The method, normalised: calls of one-expression helper functions (nested in the method or at module level) are
-    replaced by the helper's expression, so that extracting or inlining such a helper does not change what is read."""
-    return _split_packed_writes(_loops_to_updates(_inline_struct_consts(_inline_helpers(_raw_func(tree, cls, name), tree), tree)))
+    replaced by the helper's expression, so that extracting or inlining such a helper does not change what is read;
+    locals the readers below refer to are given their canonical names by the role of their binding site."""
+    return _canon_locals(_split_packed_writes(_loops_to_updates(_inline_struct_consts(_inline_helpers(_raw_func(tree, cls, name), tree), tree))),
+                         _LOCAL_ROLES.get(name, ()))
+
+
+# ------------------------------------------------------------------------------------------------ locals by role
+# (canonical names, kind, pattern): a binding site of kind 'assign' (`X = VALUE`) or 'for' (`for X[, Y] in ITER`) whose
+# VALUE / ITER, unparsed with the renamings found so far applied, matches the pattern binds the named locals.
+_ENC_PAT = r""".*'(utf8|utf-8|ascii)'.*'(utf8|utf-8|ascii)'.*"""
+_LOCAL_ROLES = {
+    'export_binary': [
+        (('elements',), 'assign', r'\[self\]'),
+        (('string_list',), 'assign', r'sorted\(\w+\)'),
+        (('encoding',), 'assign', _ENC_PAT),
+        (('elem',), 'for', r'elements'),
+        (('attr_key', 'attr'), 'for', r'elem\._members\.items\(\)'),
+        (('attr',), 'for', r'elem(\._members)?\.values\(\)'),
+        (('subelem',), 'for', r'attr\.iter_elem\(\)'),
+        (('text',), 'for', r'string_list|attr\.iter_string\(\)'),
+    ],
+    'export_kv2': [
+        (('elements',), 'assign', r'\[self\]'),
+        (('use_count',), 'assign', r'\{self\.uuid: \d+\}'),
+        (('encoding',), 'assign', _ENC_PAT),
+        (('roots',), 'assign', r'set\(use_count(\.keys\(\))?\)'),
+        (('elem',), 'for', r'elements'),
+        (('attr',), 'for', r'elem(\._members)?\.values\(\)'),
+        (('subelem',), 'for', r'attr\.iter_elem\(\)'),
+    ],
+    '_export_kv2': [
+        (('attr',), 'for', r'self(\._members)?\.values\(\)'),
+        ((None, 'child'), 'for', r'enumerate\(attr\._value\)'),
+        (('child',), 'assign', r'attr\.val_elem'),
+        (('str_value',), 'assign', r'.*TYPE_CONVERT\[.*'),
+        (('indent_child',), 'assign', r"indent \+ b'\\t'"),
+        (('indent_arr',), 'assign', r"indent \+ b'\\t\\t'"),
+    ],
+    'parse_kv2': [
+        (('tok',), 'assign', r'Tokenizer\(.*'),
+    ],
+    '_parse_kv2_element': [
+        (('elem',), 'assign', r'cls\(name, typ_name, _UNSET_UUID\)'),
+        (('attr_name',), 'for', r'tok\.block\(name\)'),
+    ],
+}
+
+
+def _canon_locals(fn: ast.FunctionDef, rules) -> ast.FunctionDef:
+    """Alpha-rename locals to the names the readers use, found by the role of their binding site.  A renaming is applied
+    only if it is consistent (every site matched for a canonical name binds the same local) and the canonical name
+    is not used for anything else in the function: then it cannot change behaviour.  Otherwise the function is
+    left as it is and the readers fail closed."""
+    if not rules:
+        return fn
+    import copy
+    fn = copy.deepcopy(fn)
+    if any(isinstance(n, (ast.Global, ast.Nonlocal)) for n in ast.walk(fn)):
+        return fn
+
+    def used(name):
+        return any((isinstance(n, ast.Name) and n.id == name) or (isinstance(n, ast.arg) and n.arg == name) for n in ast.walk(fn))
+
+    def names_of(t):
+        if isinstance(t, ast.Name):
+            return [t.id]
+        if isinstance(t, (ast.Tuple, ast.List)) and all(isinstance(e, ast.Name) for e in t.elts):
+            return [e.id for e in t.elts]
+        return None
+    for _ in range(6):
+        found: dict = {}
+        for canon, kind, pat in rules:
+            for n in ast.walk(fn):
+                if kind == 'assign' and isinstance(n, ast.Assign) and len(n.targets) == 1:
+                    tg, src = names_of(n.targets[0]), n.value
+                elif kind == 'for' and isinstance(n, (ast.For, ast.comprehension)):
+                    tg, src = names_of(n.target), n.iter
+                else:
+                    continue
+                if tg is None or len(tg) != len(canon) or not re.fullmatch(pat, ast.unparse(src), re.S):
+                    continue
+                for c, a in zip(canon, tg):
+                    if c is not None:
+                        found.setdefault(c, set()).add(a)
+        ren = {}
+        for c, actual in found.items():
+            if len(actual) == 1:
+                a = next(iter(actual))
+                if a != c and not used(c) and a not in ren:
+                    ren[a] = c
+        if not ren:
+            break
+        for n in ast.walk(fn):
+            if isinstance(n, ast.Name) and n.id in ren:
+                n.id = ren[n.id]
+    return fn
 
 
 # ------------------------------------------------------------------------------------------------ normalisation
@@ -1006,6 +1100,42 @@ def _kv2_members(tree: ast.Module) -> dict:
     lines = [n for n in ast.walk(w) if isinstance(n, ast.Constant) and isinstance(n.value, bytes) and b'"name" "string"' in n.value]
     if len(lines) != 1 or lines[0].value != b'%b"name" "string" "%b"\r\n':
         _fail('_export_kv2: the line `"name" "string" "<Element.name>"` is not written exactly once', w)
+    # is the name line written for every element?  (an inline block starts with the name of the attribute that holds it:
+    # only the name line gives it its own name back)
+    wbody = _strip_doc(w.body)
+    name_always = any(isinstance(st, ast.Expr) and lines[0] in list(ast.walk(st)) for st in wbody)
+    # the id line: for which (cull_uuid, is a root) is it written?
+    idl = [n for n in ast.walk(w) if isinstance(n, ast.Constant) and isinstance(n.value, bytes) and b'"id" "elementid"' in n.value]
+    if len(idl) != 1:
+        _fail('_export_kv2: the line `"id" "elementid" "<uuid>"` is not written exactly once', w)
+    holder = [st for st in wbody if idl[0] in list(ast.walk(st))]
+    if len(holder) != 1:
+        _fail('_export_kv2: the id line is not written at the top of the method', w)
+
+    def cond(n):
+        src = ast.unparse(n)
+        if src == 'cull_uuid':
+            return 'cull'
+        if src == 'self.uuid in roots':
+            return 'root'
+        if src == 'self.uuid not in roots':
+            return '(negb root)'
+        if isinstance(n, ast.UnaryOp) and isinstance(n.op, ast.Not):
+            return f'(negb {cond(n.operand)})'
+        if isinstance(n, ast.BoolOp):
+            op = 'orb' if isinstance(n.op, ast.Or) else 'andb'
+            parts = [cond(v) for v in n.values]
+            out = parts[-1]
+            for p_ in reversed(parts[:-1]):
+                out = f'({op} {p_} {out})'
+            return out
+        _fail(f'_export_kv2: unrecognised condition of the id line `{src}`', n)
+    if isinstance(holder[0], ast.Expr):
+        id_cond = 'true'
+    elif isinstance(holder[0], ast.If) and not holder[0].orelse and len(holder[0].body) == 1 and isinstance(holder[0].body[0], ast.Expr):
+        id_cond = cond(holder[0].test)
+    else:
+        _fail('_export_kv2: unrecognised statement around the id line', holder[0])
     r = _func(tree, 'Element', '_parse_kv2_element')
     blocks = [n for n in ast.walk(r) if isinstance(n, ast.For) and isinstance(n.target, ast.Name) and ast.unparse(n.iter).startswith('tok.block(')]
     if len(blocks) != 1:
@@ -1025,7 +1155,7 @@ def _kv2_members(tree: ast.Module) -> dict:
     setter = [x for x in tests[0].body if isinstance(x, ast.Assign) and ast.unparse(x.targets[0]) == 'elem.name']
     if len(setter) != 1 or ast.unparse(setter[0].value) != 'tok.expect(Token.STRING)' or not isinstance(tests[0].body[-1], ast.Continue):
         _fail('_parse_kv2_element: the name branch is not `elem.name = tok.expect(Token.STRING); continue`', tests[0])
-    return {'skip': skip, 'name_test': test, 'line': loops[0].lineno}
+    return {'skip': skip, 'name_test': test, 'line': loops[0].lineno, 'name_line_always': name_always, 'id_cond': id_cond}
 
 
 # ------------------------------------------------------------------------------------------------ scalar codecs
@@ -1454,8 +1584,10 @@ def _ref_cond(node: ast.AST, where) -> str:
     src = ast.unparse(node)
     if src in ('child.is_null', 'child is NULL'):
         return 'CNull'
-    if src in ('child.is_stub', 'isinstance(child, StubElement)'):
+    if src == 'child.is_stub':
         return 'CStub'
+    if src == 'isinstance(child, StubElement)':      # NULL is a StubElement too (is_stub is false for it)
+        return '(COr CStub CNull)'
     if src == 'child.uuid in roots':
         return 'CRoot'
     if src == 'child.uuid not in roots':
@@ -1550,7 +1682,15 @@ def _kv2_keyword_roots(tree: ast.Module, fn: ast.FunctionDef) -> tuple[bool, int
     upd = [n for n in ast.walk(fn) if isinstance(n, ast.Call) and ast.unparse(n.func) == 'roots.update']
     if not upd:
         return False, fn.lineno
-    if len(upd) != 1 or ast.unparse(upd[0]) != 'roots.update((elem.uuid for elem in elements if _kv2_type_is_keyword(elem.type)))':
+    ok = len(upd) == 1 and len(upd[0].args) == 1 and not upd[0].keywords and isinstance(upd[0].args[0], (ast.GeneratorExp, ast.SetComp, ast.ListComp))
+    if ok:
+        ge = upd[0].args[0]
+        ok = len(ge.generators) == 1 and isinstance(ge.generators[0].target, ast.Name) and not ge.generators[0].is_async
+        if ok:
+            x = ge.generators[0].target.id
+            ok = (ast.unparse(ge.generators[0].iter) == 'elements' and ast.unparse(ge.elt) == f'{x}.uuid'
+                  and [ast.unparse(c) for c in ge.generators[0].ifs] == [f'_kv2_type_is_keyword({x}.type)'])
+    if not ok:
         _fail(f'export_kv2: unrecognised `{ast.unparse(upd[0])}`', upd[0])
     par = _parents(fn)
     p_ = upd[0]
@@ -1571,6 +1711,130 @@ def _kv2_keyword_roots(tree: ast.Module, fn: ast.FunctionDef) -> tuple[bool, int
     if body != want:
         _fail(f'_kv2_type_is_keyword: unrecognised body {body}', pred)
     return True, upd[0].lineno
+
+
+def _int_const(n: ast.AST, where, what: str) -> int:
+    if isinstance(n, ast.Constant) and isinstance(n.value, int) and not isinstance(n.value, bool) and n.value >= 0:
+        return n.value
+    _fail(f'export_kv2: {what}: a non-negative integer constant expected, found `{ast.unparse(n)}`', where)
+
+
+RCMP = {ast.Gt: 'RGt', ast.GtE: 'RGe', ast.NotEq: 'RNe', ast.Eq: 'REq', ast.Lt: 'RLt', ast.LtE: 'RLe'}
+
+
+def _kv2_roots(fn: ast.FunctionDef) -> dict:
+    """export_kv2: how `use_count` is built and which elements become roots (written at the top level and referred to
+    by UUID) -> the fields of Fmt/DmxKv2Graph.v rootcfg.  The locals have their canonical names (_canon_locals)."""
+    body = _strip_doc(fn.body)
+    out: dict = {}
+    init = [n for n in body if isinstance(n, ast.Assign) and ast.unparse(n.targets[0]) == 'use_count']
+    if len(init) != 1 or not (isinstance(init[0].value, ast.Dict) and len(init[0].value.keys) == 1 and init[0].value.keys[0] is not None
+                              and ast.unparse(init[0].value.keys[0]) == 'self.uuid'):
+        _fail('export_kv2: `use_count = {self.uuid: K}` not found exactly once', fn)
+    out['self_count'] = _int_const(init[0].value.values[0], init[0], 'initial count of the exported element')
+    if not any(isinstance(n, ast.Assign) and ast.unparse(n) == 'elements = [self]' for n in body):
+        _fail('export_kv2: `elements = [self]` not found', fn)
+
+    def stores_count(n):
+        return any(isinstance(x, (ast.Assign, ast.AugAssign)) and 'use_count[' in ast.unparse(x.targets[0] if isinstance(x, ast.Assign) else x.target)
+                   for x in ast.walk(n))
+    loops = [n for n in body if isinstance(n, ast.For) and ast.unparse(n.iter) == 'elements' and ast.unparse(n.target) == 'elem' and stores_count(n)]
+    if len(loops) != 1 or loops[0].orelse:
+        _fail(f'export_kv2: expected one `for elem in elements` loop that fills use_count, found {len(loops)}', fn)
+    stmts = [x for x in loops[0].body if not (isinstance(x, ast.AnnAssign) and x.value is None)]
+    if not (len(stmts) == 1 and isinstance(stmts[0], ast.For) and ast.unparse(stmts[0].target) == 'attr' and not stmts[0].orelse
+            and ast.unparse(stmts[0].iter) in ('elem.values()', 'elem._members.values()')):
+        _fail('export_kv2: the counting loop is not `for attr in elem.values()`', loops[0])
+    inner = stmts[0].body
+    is_elem = ('attr.type is ValueType.ELEMENT', 'attr.type == ValueType.ELEMENT')
+    not_elem = ('attr.type is not ValueType.ELEMENT', 'attr.type != ValueType.ELEMENT')
+    if (len(inner) == 2 and isinstance(inner[0], ast.If) and ast.unparse(inner[0].test) in not_elem and not inner[0].orelse
+            and len(inner[0].body) == 1 and isinstance(inner[0].body[0], ast.Continue)):
+        sub = inner[1]
+    elif len(inner) == 1 and isinstance(inner[0], ast.If) and ast.unparse(inner[0].test) in is_elem and not inner[0].orelse and len(inner[0].body) == 1:
+        sub = inner[0].body[0]
+    else:
+        _fail('export_kv2: the counting loop does not select the ELEMENT attributes in a recognised way', stmts[0])
+    if not (isinstance(sub, ast.For) and ast.unparse(sub.target) == 'subelem' and ast.unparse(sub.iter) == 'attr.iter_elem()' and not sub.orelse):
+        _fail('export_kv2: `for subelem in attr.iter_elem()` not found in the counting loop', stmts[0])
+    sb = list(sub.body)
+    out['skip_stubs'] = False
+    # NULL is a StubElement whose is_stub is false: `subelem.is_stub` alone would count NULL as an element
+    stub_tests = ('isinstance(subelem, StubElement)', 'subelem.is_stub or subelem.is_null', 'subelem.is_null or subelem.is_stub',
+                  'subelem.is_stub or subelem is NULL', 'subelem is NULL or subelem.is_stub')
+    if sb and isinstance(sb[0], ast.If) and ast.unparse(sb[0].test) in stub_tests and not sb[0].orelse \
+            and len(sb[0].body) == 1 and isinstance(sb[0].body[0], ast.Continue):
+        out['skip_stubs'] = True
+        sb = sb[1:]
+    elif len(sb) == 1 and isinstance(sb[0], ast.If) and ast.unparse(sb[0].test) in tuple(f'not {t}' if ' or ' not in t else f'not ({t})' for t in stub_tests) and not sb[0].orelse:
+        out['skip_stubs'] = True
+        sb = list(sb[0].body)
+    if not (len(sb) == 1 and isinstance(sb[0], ast.If) and sb[0].orelse):
+        _fail(f'export_kv2: unrecognised body of the counting loop {[ast.unparse(x) for x in sb]}', sub)
+    t = ast.unparse(sb[0].test)
+    if t == 'subelem.uuid not in use_count':
+        first, again = sb[0].body, sb[0].orelse
+    elif t == 'subelem.uuid in use_count':
+        first, again = sb[0].orelse, sb[0].body
+    else:
+        _fail(f'export_kv2: unrecognised first-use test `{t}`', sb[0])
+    fsrc = sorted(ast.unparse(x) for x in first)
+    fa = [x for x in first if isinstance(x, ast.Assign) and ast.unparse(x.targets[0]) == 'use_count[subelem.uuid]']
+    if len(first) != 2 or len(fa) != 1 or 'elements.append(subelem)' not in fsrc:
+        _fail(f'export_kv2: unrecognised first-use branch {fsrc}', sb[0])
+    out['first'] = _int_const(fa[0].value, fa[0], 'count at the first use')
+    if len(again) == 1 and isinstance(again[0], ast.AugAssign) and isinstance(again[0].op, ast.Add) and ast.unparse(again[0].target) == 'use_count[subelem.uuid]':
+        out['incr'] = _int_const(again[0].value, again[0], 'increment')
+    elif (len(again) == 1 and isinstance(again[0], ast.Assign) and ast.unparse(again[0].targets[0]) == 'use_count[subelem.uuid]'
+          and isinstance(again[0].value, ast.BinOp) and isinstance(again[0].value.op, ast.Add) and ast.unparse(again[0].value.left) == 'use_count[subelem.uuid]'):
+        out['incr'] = _int_const(again[0].value.right, again[0], 'increment')
+    else:
+        _fail(f'export_kv2: unrecognised repeated-use branch {[ast.unparse(x) for x in again]}', sb[0])
+    # the roots
+    sel = [n for n in body if isinstance(n, ast.If) and ast.unparse(n.test) in ('flat', 'not flat')
+           and any(isinstance(x, ast.Assign) and ast.unparse(x.targets[0]) == 'roots' for x in ast.walk(n))]
+    if len(sel) != 1:
+        _fail(f'export_kv2: expected one `if flat:` that assigns roots, found {len(sel)}', fn)
+    fl, nf = (sel[0].body, sel[0].orelse) if ast.unparse(sel[0].test) == 'flat' else (sel[0].orelse, sel[0].body)
+    out['flat_all'] = [ast.unparse(x) for x in fl] in (['roots = set(use_count)'], ['roots = set(use_count.keys())'])
+    if not out['flat_all']:
+        _fail(f'export_kv2: unrecognised flat branch {[ast.unparse(x) for x in fl]}', sel[0])
+    ra = [x for x in nf if isinstance(x, ast.Assign) and ast.unparse(x.targets[0]) == 'roots']
+    if len(ra) != 1 or nf[0] is not ra[0] or not isinstance(ra[0].value, ast.SetComp):
+        _fail('export_kv2: the nested branch does not start with `roots = {... for ... in use_count.items() if ...}`', sel[0])
+    sc = ra[0].value
+    g0 = sc.generators[0] if len(sc.generators) == 1 else _fail('export_kv2: unrecognised roots comprehension', ra[0])
+    if not (isinstance(g0.target, ast.Tuple) and len(g0.target.elts) == 2 and all(isinstance(e, ast.Name) for e in g0.target.elts)
+            and ast.unparse(g0.iter) == 'use_count.items()' and ast.unparse(sc.elt) == g0.target.elts[0].id and len(g0.ifs) == 1
+            and isinstance(g0.ifs[0], ast.Compare) and len(g0.ifs[0].ops) == 1 and type(g0.ifs[0].ops[0]) in RCMP
+            and ast.unparse(g0.ifs[0].left) == g0.target.elts[1].id):
+        _fail(f'export_kv2: unrecognised roots comprehension `{ast.unparse(sc)}`', ra[0])
+    out['cmp'] = RCMP[type(g0.ifs[0].ops[0])]
+    out['thr'] = _int_const(g0.ifs[0].comparators[0], ra[0], 'threshold of the use count')
+    for x in nf[1:]:
+        if not (isinstance(x, ast.Expr) and isinstance(x.value, ast.Call) and ast.unparse(x.value.func) == 'roots.update'):
+            _fail(f'export_kv2: unrecognised statement in the nested branch `{ast.unparse(x)}`', x)
+    adds = [n for n in body if isinstance(n, ast.Expr) and ast.unparse(n) == 'roots.add(self.uuid)']
+    out['self_root'] = len(adds) == 1 and body.index(adds[0]) > body.index(sel[0])
+    # nothing else touches roots / use_count between the selection and the writing loop
+    for n in body:
+        if n is sel[0] or n in adds or n is init[0] or n is loops[0]:
+            continue
+        if any(isinstance(x, ast.Name) and x.id in ('roots', 'use_count') and not isinstance(x.ctx, ast.Load) for x in ast.walk(n)) \
+                or any(isinstance(x, ast.Call) and isinstance(x.func, ast.Attribute) and ast.unparse(x.func.value) in ('roots', 'use_count')
+                       and x.func.attr not in ('items', 'keys', 'values', 'get', 'copy') for x in ast.walk(n)):
+            _fail(f'export_kv2: roots / use_count changed by `{ast.unparse(n)[:80]}`', n)
+    # the writing loop: the elements in order, those that are roots, with the roots handed down
+    wl = [n for n in body if isinstance(n, ast.For) and ast.unparse(n.iter) == 'elements' and ast.unparse(n.target) == 'elem'
+          and any(isinstance(x, ast.Call) and ast.unparse(x.func) == 'elem._export_kv2' for x in ast.walk(n))]
+    if len(wl) != 1 or len(wl[0].body) != 1 or not isinstance(wl[0].body[0], ast.If) or wl[0].body[0].orelse \
+            or ast.unparse(wl[0].body[0].test) not in ('flat or elem.uuid in roots', 'elem.uuid in roots or flat', 'elem.uuid in roots'):
+        _fail('export_kv2: the writing loop is not `for elem in elements: if flat or elem.uuid in roots: ...`', fn)
+    calls = [x for x in ast.walk(wl[0]) if isinstance(x, ast.Call) and ast.unparse(x.func) == 'elem._export_kv2']
+    if len(calls) != 1 or calls[0].keywords or [ast.unparse(a) for a in calls[0].args] != ['file', "b''", 'roots', 'encoding', 'cull_uuid']:
+        _fail(f'export_kv2: unrecognised call `{ast.unparse(calls[0]) if calls else None}`', wl[0])
+    out['line'] = sel[0].lineno
+    return out
 
 
 def _kv2_stubs(cls_fns: list[ast.FunctionDef]) -> tuple[bool, int]:
@@ -1837,6 +2101,7 @@ def translate() -> tuple[str, dict]:
     kv2_refs = _kv2_ref_tables(_func(tree, 'Element', '_export_kv2'))
     kv2_tok_kw = _kv2_tokenizer_kwargs(_func(tree, 'Element', 'parse_kv2'))
     kv2_kw_roots, kv2_kw_roots_line = _kv2_keyword_roots(tree, _func(tree, 'Element', 'export_kv2'))
+    kv2_roots = _kv2_roots(_func(tree, 'Element', 'export_kv2'))
     kv2_stub, kv2_stub_line = _kv2_stubs([_func(tree, 'Element', 'parse_kv2'), _func(tree, 'Element', '_parse_kv2_element')])
     kv1 = _kv1(tree)
     cnt = _attr_count(_func(tree, 'Element', 'export_binary'))
@@ -1874,7 +2139,7 @@ def translate() -> tuple[str, dict]:
                 attr_count={'len': cnt['count'].ln, 'has': cnt['count'].has, 'has_key': cnt['count'].has_key, 'const': cnt['count'].const,
                             'kept': cnt['count'].kept, 'kept_filter': cnt['count'].kept_filter, 'write_filter': cnt['write_filter'],
                             'collect_filter': cnt['collect_filter'], 'line': cnt['line'], 'name_getter': ngt},
-                parse_keys=pkeys, kv2_members=kv2m,
+                parse_keys=pkeys, kv2_members=kv2m, kv2_roots=kv2_roots,
                 digests={f: ast_digest(_func(tree, 'Element', f)) for f in
                          ('parse_bin', 'export_binary', 'export_kv2', '_export_kv2', 'parse_kv2', '_parse_kv2_element')})
 
@@ -1889,7 +2154,7 @@ def translate() -> tuple[str, dict]:
     umfun = lambda d: ('fun m => match m with UAscii => ' + b(d['ascii']) + ' | UFormat => ' + b(d['format']) + ' | USilent => ' + b(d['silent']) + ' end')
     lines = [
         '(* GENERATED by translate/c14_dmx.py from /repo/src/srctools/dmx.py. Do not edit. *)',
-        'From Coq Require Import NArith ZArith List String.', 'From SV Require Import Num.Dec6 Fmt.DmxCodes Fmt.DmxBin Fmt.DmxMembers Fmt.DmxMembersParse Fmt.DmxMembersKv2 Fmt.DmxKv1 Fmt.DmxKv1Sel Fmt.DmxScalar Fmt.DmxKv2 Fmt.DmxValText Fmt.DmxHeader.', 'Import ListNotations.',
+        'From Coq Require Import NArith ZArith List String.', 'From SV Require Import Num.Dec6 Fmt.DmxCodes Fmt.DmxBin Fmt.DmxMembers Fmt.DmxMembersParse Fmt.DmxMembersKv2 Fmt.DmxKv1 Fmt.DmxKv1Sel Fmt.DmxScalar Fmt.DmxKv2 Fmt.DmxKv2Graph Fmt.DmxValText Fmt.DmxHeader.', 'Import ListNotations.',
         'Open Scope N_scope.',
         'Definition gen_cfg : dmxcfg := {|',
         '  code_table := [' + '; '.join(f'({c}, {i})' for c, i, _ in table) + '];',
@@ -1947,6 +2212,10 @@ def translate() -> tuple[str, dict]:
         'Definition gen_ref_array : rtable := [' + '; '.join(f'({c}, {a})' for c, a in kv2_refs['array']['table']) + '].',
         '(* export_kv2, nested layout: elements whose type name is an attribute type keyword are written at the top level *)',
         f'Definition kv2_keyword_types_at_root : bool := {b(kv2_kw_roots)}.',
+        '(* export_kv2: how use_count is built and which elements are written at the top level *)',
+        f'Definition gen_rootcfg : rootcfg := {{| rc_self_count := {kv2_roots["self_count"]}%nat; rc_first := {kv2_roots["first"]}%nat; rc_incr := {kv2_roots["incr"]}%nat; '
+        f'rc_skip_stubs := {b(kv2_roots["skip_stubs"])}; rc_cmp := {kv2_roots["cmp"]}; rc_thr := {kv2_roots["thr"]}%nat; '
+        f'rc_keyword_roots := {b(kv2_kw_roots)}; rc_self_root := {b(kv2_roots["self_root"])}; rc_flat_all := {b(kv2_roots["flat_all"])} |}}.',
         '(* parse_kv2: keyword arguments of Tokenizer(file, ...) *)',
         'Definition gen_kv2_tok_kwargs : list (string * bool) := [' + '; '.join(f'("{k}"%string, {b(v)})' for k, v in kv2_tok_kw) + '].',
         '(* the values of the ValueType enum (attribute type keywords of KeyValues2) *)',
@@ -1964,6 +2233,9 @@ def translate() -> tuple[str, dict]:
         '(* _export_kv2: the skip test of the loop over the members; _parse_kv2_element: the test in front of the name setter *)',
         f'Definition gen_kv2_skip : mfilter := {mfilter(kv2m["skip"])}.',
         f'Definition gen_kv2_name_test : nametest := {kv2m["name_test"]}.',
+        '(* _export_kv2: is the name line written for every element; for which (cull_uuid, is a root) is the id line written *)',
+        f'Definition gen_kv2_name_line_always : bool := {b(kv2m["name_line_always"])}.',
+        f'Definition gen_kv2_id_written : bool -> bool -> bool := fun cull root => {kv2m["id_cond"]}.',
         '(* from_kv1: which name of a leaf (casefolded .name / case-preserved .real_name) the reserved-name test and the duplicate test read *)',
         f'Definition gen_kv1_reserved_sel : namesel := {kv1["reserved_sel"]}.',
         f'Definition gen_kv1_dup_sel : namesel := {kv1["dup_sel"]}.',
